@@ -1,4 +1,5 @@
 """C09 - the caching body reader returns the body exactly once, in order, and stops."""
+import random
 import itertools
 
 from harness.core import hx, unhx, Violation, excname
@@ -114,11 +115,36 @@ def parse(case):
     return body, n, block, script, ops
 
 
-def execute(case):
+_apps = {}
+
+
+def request_input(und, n, block):
+    """the reader a handler gets: `Request.input` of an application with cached_size = block (request.py:426-433,
+    678-689: the body is not buffered, the reader is built with the declared length, block size and time-out)"""
+    import io
+    from poorwsgi import Application
+    from poorwsgi.request import Request, CachedInput
+    if block not in _apps:
+        import os
+        app = Application("verif_c09_%d_%d" % (os.getpid(), block))
+        app.auto_data = app.auto_form = app.auto_json = False
+        app.cached_size = block
+        app.read_timeout = 0.02
+        _apps[block] = app
+    env = {"REQUEST_METHOD": "POST", "PATH_INFO": "/", "QUERY_STRING": "", "SERVER_NAME": "s", "SERVER_PORT": "80",
+           "SERVER_PROTOCOL": "HTTP/1.1", "wsgi.url_scheme": "http", "wsgi.input": und, "wsgi.errors": io.StringIO(),
+           "CONTENT_LENGTH": str(n), "CONTENT_TYPE": "application/octet-stream", "REQUEST_STARTTIME": 0.0}
+    ci = Request(env, _apps[block]).input
+    if not isinstance(ci, CachedInput):
+        raise AssertionError("Request.input is %r, not the caching reader" % type(ci).__name__)
+    return ci
+
+
+def execute(case, via_request=False):
     from poorwsgi.request import CachedInput
     body, n, block, script, ops = parse(case)
     und = Under(body, script)
-    ci = CachedInput(und, n, block, 0.02)
+    ci = request_input(und, n, block) if via_request else CachedInput(und, n, block, 0.02)
     results = []
     for kind, size in ops:
         before = len(und.requests)
@@ -138,11 +164,11 @@ def observe(case):
     return a + " " + b
 
 
-def oracle(case):
+def oracle(case, via_request=False):
     body, n, block, script, ops = parse(case)
     avail = body[:n]
     try:
-        results, und = execute(case)
+        results, und = execute(case, via_request)
     except BaseException as err:
         return [Violation("c09-raises", case, "reader raised %r (spinning until time-out or crash)" % (err,))]
     bad = None
@@ -206,6 +232,20 @@ def extra_oracles(rng, tier):
             if r or und.pos:
                 out.append(Violation("c09-negative-length", {"declared": -1, "op": kind, "size": size},
                                      "read %r from a stream without declared length" % (r,)))
+    # the same histories through the reader a handler is given (Request.input), for a sample of the cases
+    for case in generate(random.Random(rng.random()), "quick")[::(7 if tier == "quick" else 2)]:
+        n += 1
+        res = oracle(case, via_request=True)
+        if not res:
+            # identical behaviour to the directly constructed reader
+            a, _ = execute(case)
+            b, _ = execute(case, via_request=True)
+            if [x[2] for x in a] != [x[2] for x in b]:
+                res = [Violation("c09-request-input", case, "Request.input returned %r, CachedInput(stream, n, block) %r"
+                                 % ([x[2] for x in b], [x[2] for x in a]))]
+        for v in res:
+            v.key = "request-input/" + v.key
+        out.extend(res)
     return out, {"evaluations": n, "distinct_nontrivial": n}
 
 
